@@ -29,7 +29,7 @@ def main(argv):
         print('unknown or unclaimed property %s' % pid)
         return 2
     t0 = time.time()
-    feature_sets = ['default'] if tier == 'quick' else ['default', 'noqc']
+    feature_sets = ['default', 'release', 'noqc']   # every configuration CFG-COVER counts as analysed
     all_results = []
     infos = []
     bodies_total = 0
